@@ -163,3 +163,136 @@ def merge_peers(facts):
                     out.append(ob("merge.peer", key, n["loc"], "violated", "merge combines `%s` with `other.%s` instead of `other.%s`: a constraint inherited by the other sketch from an earlier merge (e.g. its smaller min_k) is lost, and the published rank error becomes too optimistic" % (mine["f"], theirs["f"], mine["f"]), fn["qname"]))
         walk(fn["body"], v)
     return out
+
+
+def _for_parts(loop):
+    """(init var decls, step assignments) of a For"""
+    inits = {}
+    for s in stmts_of(loop.get("i")) if loop.get("i") else []:
+        if s.get("k") == "Decl":
+            for v in s["vars"]:
+                inits[v["d"]] = v
+    steps = []
+    walk(loop.get("inc") or loop.get("u") or {}, lambda n: steps.append(n) if n.get("k") == "Assign" and n.get("op") in ("+=", "-=") else None)
+    return inits, steps
+
+
+def stride_offsets(facts):
+    """a sub-sampling loop `for (i = off; ...; i += step)` with a non-literal step keeps one item per group of `step`: unbiased only if
+    `off` is uniform over [0, step) - i.e. drawn from uniform_int_distribution(0, step - 1) over the library engine."""
+    fns = functions_by(facts, ["kll", "req", "quantiles"])
+    out = []
+    for pat, fn in sorted(fns.items()):
+        if fn["name"] != "zip_buffer_with_stride":
+            continue
+        base = short(fn["patq"])
+        decls = local_decls(fn)
+        loops = []
+        walk(fn["body"], lambda n: loops.append(n) if n.get("k") == "For" else None)
+        found = False
+        for lp in loops:
+            steps = []
+            for k in ("inc", "u", "step", "n"):
+                if isinstance(lp.get(k), dict):
+                    walk(lp[k], lambda n: steps.append(n) if n.get("k") == "Assign" and n.get("op") == "+=" else None)
+            for stp in steps:
+                r = strip_all(stp["r"])
+                cur = strip_all(stp["l"])
+                if r.get("k") != "Ref" or cur.get("k") != "Ref":
+                    continue
+                found = True
+                key = base + ":offset-range"
+                cinit = decls.get(cur["d"], {}).get("init")
+                off = strip_all(cinit) if cinit else {}
+                if off.get("k") == "Ref" and off.get("d") in decls:
+                    off = strip_all(decls[off["d"]].get("init") or {})
+                ok, why = False, "start offset `%s` is not a draw from a uniform distribution over [0, %s)" % (txt(off), r["n"])
+                if off.get("k") == "OpCall" and off.get("op") == "()" and off.get("crec") == "std::uniform_int_distribution" and len(off.get("args", [])) == 2:
+                    d, eng = strip_all(off["args"][0]), strip_all(off["args"][1])
+                    dd = strip_all(decls.get(d.get("d"), {}).get("init") or {})
+                    a = [txt(strip_all(x)).replace(" ", "") for x in dd.get("args", [])]
+                    if (eng.get("q") or "") != "datasketches::random_utils::rand":
+                        why = "offset drawn from `%s`, not the library engine random_utils::rand" % txt(eng)
+                    elif len(a) == 2 and a[0] == "0" and a[1] in ("(%s-1)" % r["n"], "%s-1" % r["n"]):
+                        ok, why = True, "offset ~ uniform_int_distribution(0, %s - 1)(random_utils::rand); cursor advances by %s" % (r["n"], r["n"])
+                    else:
+                        why = "offset distribution is uniform over [%s], the loop step is `%s`: not every residue class is kept with probability 1/%s" % (", ".join(a), r["n"], r["n"])
+                elif is_coin_call(off) or any(is_coin_call(x) for x in _subexprs(off)):
+                    why = "start offset `%s` has at most two outcomes (random_bit) while the loop keeps one item out of every `%s`: for strides above 2 the survivors always come from the first residues, the merged ranks are biased" % (txt(off), r["n"])
+                out.append(ob("coin.stride", key, lp["loc"], "discharged" if ok else "violated", why, fn["qname"]))
+        if not found:
+            out.append(ob("coin.stride", base + ":offset-range", fn["pat"], "unrecognised", "no `cursor += stride` loop found", fn["qname"]))
+    return out
+
+
+def _subexprs(e):
+    out = []
+    walk(e, lambda n: out.append(n))
+    return out
+
+
+def req_region(facts):
+    """REQ keeps its live items contiguous at one end of the buffer (begin()/end() depend on hra_) and compact() only shrinks
+    num_items_: the compacted range must touch the end that moves - low == 0 in HRA, high == num_items_ in LRA. Evaluated
+    symbolically with hra_ fixed to each value; a variable changed under an undecided condition becomes unknown."""
+    fns = functions_by(facts, ["req"])
+    out = []
+    for pat, fn in sorted(fns.items()):
+        if fn["name"] != "compute_compaction_range" or fn.get("rect") != "datasketches::req_compactor":
+            continue
+        for hra in (True, False):
+            env = {}
+
+            def ev(e):
+                e = strip_all(e)
+                k = e.get("k")
+                if k == "Cond":
+                    c = strip_all(e["c"])
+                    if c.get("k") == "Member" and c.get("f") == "hra_":
+                        return ev(e["a"] if hra else e["e"])
+                    return "?"
+                if k == "Ref" and e.get("dk") == "local":
+                    return env.get(e["d"], "?")
+                if k == "Member" and e.get("isfield"):
+                    return e["f"]
+                if "v" in e and k in ("Int", "Cast"):
+                    return str(e["v"])
+                if k == "Bin":
+                    a, b = ev(e["l"]), ev(e["r"])
+                    return "?" if "?" in (a, b) else "(%s%s%s)" % (a, e["op"], b)
+                if k == "Call" and not e.get("args"):
+                    return (e.get("cname") or "?") + "()"
+                return "?" if k not in ("Int",) else str(e.get("v"))
+
+            def kill(s):
+                def v(n):
+                    if n.get("k") == "Assign" or (n.get("k") == "Un" and n.get("op") in ("++", "--")):
+                        t = strip_all(n.get("l") or n.get("e"))
+                        if t.get("k") == "Ref":
+                            env[t["d"]] = "?"
+                walk(s, v)
+            ret = None
+            for s in stmts_of(fn["body"]):
+                if s.get("k") == "Decl":
+                    for v in s["vars"]:
+                        env[v["d"]] = ev(v["init"]) if v.get("init") else "?"
+                elif s.get("k") == "Return":
+                    r = strip_all(s.get("e") or {})
+                    args = r.get("args", [])
+                    while len(args) == 1 and strip_all(args[0]).get("k") == "Construct":
+                        args = strip_all(args[0]).get("args", [])
+                    if len(args) == 2:
+                        ret = (ev(args[0]), ev(args[1]))
+                else:
+                    kill(s)
+            key = "req_compactor::compute_compaction_range:%s" % ("hra:low==0" if hra else "lra:high==num_items_")
+            if ret is None:
+                out.append(ob("req.region", key, fn["pat"], "unrecognised", "return pair(low, high) not found", fn["qname"]))
+                continue
+            got = ret[0] if hra else ret[1]
+            want = "0" if hra else "num_items_"
+            if got == want:
+                out.append(ob("req.region", key, fn["pat"], "discharged", "with hra_=%s the range is (%s, %s): it touches the end of the live region that compact() moves" % (str(hra).lower(), ret[0], ret[1]), fn["qname"]))
+            else:
+                out.append(ob("req.region", key, fn["pat"], "violated", "with hra_=%s the compacted range is (%s, %s), %s is not provably %s: compact() shrinks num_items_ from that end, so the live region loses an item that was not compacted and keeps a destroyed/duplicated one (weight no longer conserved, ranks biased)" % (str(hra).lower(), ret[0], ret[1], "low" if hra else "high", want), fn["qname"]))
+    return out
